@@ -1,7 +1,8 @@
 PROPERTY = "C20"
 LEVEL = "proof"
 LEAN_MODULES = ["CifModel.Props.C20", "CifModel.Props.ReviewC20"]
-REQUIRED = ["CifModel.C20_table", "CifModel.C20_distinct", "CifModel.C20_nerr_is_length", "CifModel.C20_codes_unique"]
+REQUIRED = ["CifModel.C20_table", "CifModel.C20_distinct", "CifModel.C20_nerr_is_length", "CifModel.C20_codes_unique",
+            "CifModel.C20_discriminates"]
 GEN = ["ErrCodes"]
 FAMILIES = ["err"]
 EXHAUSTIVE = True
@@ -13,11 +14,17 @@ TRUSTED_BASE = [
     "harness/x_err.c + tools/gen/err.py (printing and comparing the compiled table)",
 ]
 ASSUMPTIONS = [
-    "a message 'describes' a condition when it contains one keyword of every group listed for the code in Spec/ErrWords.lean",
+    "a message 'describes' a condition when it contains one keyword of every group listed for the code in Spec/ErrWords.lean "
+    "(and none of a negative group); the groups are discriminating on the pinned header: C20_discriminates proves that no message "
+    "describes the condition of another code, so an exchange of two initialisers or a shift of the positional table is noticed",
+    "'any value returned by the library' is read as 'every result code defined by the public header' (the property's own quantifier); "
+    "that no function returns an undefined value is not proved",
+    "C20_nerr_is_length compares two numbers extracted by the same translator (cif_nerr is defined by sizeof in cif.c): it guards the "
+    "extraction, the compiled cif_nerr is compared by family err",
 ]
 PARTIAL = []
 LEVEL_TEXT = ("Proof, exhaustive: the quantifier is the finite table of result codes in cif.h. The table and the cif_errlist "
-              "initialiser are re-extracted from the working tree on every run and the Lean theorems C20_table / C20_distinct / "
+              "initialiser are re-extracted from the working tree on every run and the Lean theorems C20_table / C20_distinct / C20_discriminates / "
               "C20_nerr_is_length / C20_codes_unique are re-decided by the kernel over them; the compiled table is compared with "
               "the extracted one for every code.")
 LEVEL_NOTE = ("Trusted: Lean kernel; tools/translate.py (cross-checked by printing the compiled cif_errlist); the keyword table of "
